@@ -17,7 +17,10 @@ def collect(prog, alias):
     body = an.body
     out = {"accept": [sorted(p) for tb in tabs for p in tb.paths], "loops": {}, "stores": [], "group": None, "trg": None}
     # loops keyed by a stable descriptor: the iterator advanced in the header
+    pure = set(h for (h, _) in sy.pure_map_loops().values())
     for head in sorted(set(h for (_, h) in body.back_edges())):
+        if head in pure:
+            continue                         # a map/collect written as a push loop: an expression, not a decision
         paths = accept.loop_tables(prog, an, sy, head, alias=alias)
         key = None
         for p in paths:
